@@ -7,7 +7,8 @@ from collections import Counter
 from . import findings
 from .snapshot import VERIF
 
-EVID = os.path.join(VERIF, "evidence")
+# (VERIF_EVIDENCE_DIR: runs against seeded changes must not overwrite the evidence of the real tree)
+EVID = os.environ.get("VERIF_EVIDENCE_DIR") or os.path.join(VERIF, "evidence")
 REPLAYS = os.path.join(EVID, "replays")
 
 EXIT_OK, EXIT_VIOLATION, EXIT_INCONCLUSIVE = 0, 1, 2
